@@ -134,6 +134,10 @@ def check_crop(spec, ctx):
     before = snapshot(arr)
     out = ctx.call(spec, f"crop_dim({kw})", arrays.crop_dim, arr, "time", **kw)
     ctx.unchanged(spec, "crop_dim: the input array", before, arr)
+    if lc and not rc:  # documented defaults: left_closed=True, right_closed=False
+        kw_d = {k: v for k, v in kw.items() if k in ("start", "stop")}
+        if not arrays.crop_dim(arr, "time", **kw_d).identical(out) and not (spec["none_start"] or spec["none_stop"]):
+            ctx.fail("crop_dim without closedness flags differs from (left_closed=True, right_closed=False)", spec, None, None, kind="defaults")
     idx = data_index(out)
     if idx is None:
         ctx.fail("crop_dim scrambled data across channels", spec, None, None, kind="data")
@@ -260,6 +264,12 @@ def check_width(spec, ctx):
     else:
         out = ctx.call(spec, f"adjust_dim_width(width={w}, position={pos})", arrays.operations.adjust_dim_width, arr, "time", w, fill_value=FILL, position=pos)
     ctx.unchanged(spec, "adjust_dim_width: the input array", before, arr)
+    if pos == "start":  # documented defaults: position="start", fill_value=0
+        d_out = arrays.operations.adjust_dim_width(arr, "time", w)
+        if d_out.sizes["time"] != out.sizes["time"] or not np.array_equal(d_out.coords["time"].values, out.coords["time"].values):
+            ctx.fail("adjust_dim_width without position differs from position='start'", spec, None, None, kind="defaults")
+        if w > n and not np.all(d_out.transpose("time", ...).values[n:] == 0):
+            ctx.fail("adjust_dim_width default fill value is not 0", spec, None, None, kind="defaults")
     if out.sizes["time"] != w:
         ctx.fail(f"width {w} requested on an axis of {n} samples (step {step}, position {pos}): got {out.sizes['time']} samples", spec, int(out.sizes["time"]), w, kind="width")
     oc = out.coords["time"].values
